@@ -114,7 +114,9 @@ static void norm_vector(const char *group, const wchar_t *src, int ns, const wch
     }
 }
 
+static char **argv0_saved;
 int main(int argc, char **argv) {
+    argv0_saved = argv;
     setvbuf(stdout, NULL, _IOLBF, 0); if (!getenv("C17_NOLOCALE")) setlocale(LC_ALL, "C.UTF-8");      /* C17_NOLOCALE: the process stays in the "C" locale it starts in, whatever LANG/LC_* say */
     void *L = dlopen(getenv("CAT_LIB"), RTLD_NOW | RTLD_GLOBAL);
     if (!L) { fprintf(stderr, "cannot load CAT_LIB\n"); return 2; }
@@ -190,6 +192,17 @@ int main(int argc, char **argv) {
             if (ol != ne || memcmp(o, exp, ne * sizeof(wchar_t))) { report("wcsfc_s", "differs-from-NFD-of-full-case-folding", cls, cs); continue; }
             if ((int)len != ol) report("wcsfc_s", "wrong-length-reported", cls, cs);
         }
+    } else if (!strcmp(cmd, "sortstab") && !getenv("C17_SORTSTAB_CHILD")) {
+        /* run in a child of its own: a call that corrupts its stack ends that process, which is a verdict */
+        fflush(stdout); pid_t pid = fork();
+        if (pid == 0) { setenv("C17_SORTSTAB_CHILD", "1", 1); execv("/proc/self/exe", argv0_saved); _exit(127); }
+        int st = 0; waitpid(pid, &st, 0);
+        if (!WIFEXITED(st) || (WEXITSTATUS(st) != 0 && WEXITSTATUS(st) != 1)) {
+            printf("{\"t\":\"viol\",\"sig\":\"C17|wcsnorm_s|harness-killed-while-normalizing-long-mark-runs|status%x\",\"n\":1,\"case\":\"sortstab\"}\n", st);
+            if (replay) { printf("VERDICT violation: the process normalizing the long mark runs was killed (status %#x)\n", st); return 1; }
+        }
+        if (replay) return WIFEXITED(st) ? WEXITSTATUS(st) : 1;
+        return 0;
     } else if (!strcmp(cmd, "sortstab")) {
         /* long runs of combining marks, many of them of the same class and distinct: the result must be the same whether or not the C library gets the
            memory it asks for internally while the library reorders the marks */
